@@ -14,7 +14,7 @@ import (
 func init() {
 	Register(&Property{
 		ID: "C08",
-		Explanation: "Decides that all check transports funnel into one decision procedure and read its answer the same way: (R08.1) each of the seven check entry points (4 REST single, REST batch, gRPC Check, gRPC BatchCheck) reaches (*Engine).CheckRelationTuple in the keto call graph and maps its input with the read-only mapper; (R08.2) every value stored into an 'Allowed' response field or returned as the decision is the engine's boolean, 'Membership == IsMember' of the engine's Result, or the constant false; (R08.3) the status-mirroring handlers write 200 only where allowed is true and 403 only where it is false, the always-200 handlers write 200 on both; (R08.4) batch: the result slot index and the tuple come from the same loop iteration, each slot is written only from that iteration's own tuple (its check or its mapping error), responses are built index-aligned with one entry per request tuple, the size limit is tested before the engine is called; (R08.5) the JSON body of a request is decoded into a fresh local value. " +
+		Explanation: "Decides that all check transports funnel into one decision procedure and read its answer the same way: (R08.1) each of the seven check entry points (4 REST single, REST batch, gRPC Check, gRPC BatchCheck) reaches (*Engine).CheckRelationTuple in the keto call graph and maps its input with the read-only mapper; (R08.2) every value stored into an 'Allowed' response field or returned as the decision is the engine's boolean, 'Membership == IsMember' of the engine's Result, or the constant false; (R08.3) the status-mirroring handlers write 200 only where allowed is true and 403 only where it is false, the always-200 handlers write 200 on both; (R08.4) batch: the result slot index and the tuple come from the same loop iteration, each slot is written only from that iteration's own tuple (its check or its mapping error), responses are built index-aligned with one entry per request tuple, the size limit is tested before the engine is called; (R08.5) the JSON body of a request is decoded into a fresh local value; (R08.6) no visited set is installed by code that fans out several checks (batch entries are evaluated independently); (R08.7) the URL-query, protobuf and string encodings of a tuple are decoded by reading exactly the keys/fields the encoders write, unmodified. " +
 			"Not decided: equality of decoded inputs across encodings (C18), engine determinism (C01/C14).",
 		Assumptions: []string{
 			"routes ending in /openapi are the always-200 variants (documented API)",
@@ -355,6 +355,10 @@ func runC08(c *Ctx) {
 
 	r084(c, ri)
 	r085(c, "R08.5", []string{"internal/check"})
+	// R08.6 batch entries are independent of each other: no visited set is installed by the code that fans the entries out
+	visitedInstallScope(c, "R08.6")
+	// R08.7 the transports decode the same tuple from their encodings (the C18 agreement rules)
+	c.R.SubRun(func() { runC18(c) }, map[string]string{"R18.1": "R08.7", "R18.2": "R08.7", "R18.3": "R08.7"})
 }
 
 func fieldVarOf(fa *ssa.FieldAddr) *types.Var {
